@@ -78,6 +78,10 @@ func TestC02(t *testing.T) {
 			rt.Fatalf("TogNMINotifications failed on a schema-conforming tree: %v\nvariant %s site %s\ntree:\n%s", err, v.Name, model.ElemsID(site.Elems), sub.Dump())
 		}
 		want := model.Graft(v.Root, site, sub.Clone()).Normalize().DropEmptyContainers()
+		if len(model.Instances(sub, nil, model.InstOpts{})) == 0 {
+			// a subtree without leaves produces no update, hence no ancestors either
+			want = model.NewNode(v.Root)
+		}
 
 		// element-wise: every update names a leaf of the subtree with the model's value; every leaf is emitted
 		insts := map[string]model.Inst{}
